@@ -5,6 +5,7 @@ from ..core import Violation
 
 ID = 'C17'
 MODULES = ['OFModel.Resize']
+PROP_FILES = ['C17', 'C17Dispatch']
 RULE = ('(a) Util.execute_xform_size and (b) VideoReader.thread_reader (maxsize=/resize=) on every (w,h,W,H) in 1..N^4 exhaustively (N=9 quick, 14 thorough) '
         'x every action x both aspect forms, plus random sizes up to 4096 per side incl. extreme aspects (1xN, Nx1), bounds smaller/equal/larger, all interp codes; '
         '(c) Util.execute_xforms on chains of 1-3 transforms (all 13 actions, strings parsed by the real normalize_config) over random 1..8 x 1..8 GRAY/BGR/RGB '
@@ -475,10 +476,84 @@ def process(ctx, cases, st):
         res.note(c, nontriv)
 
 
+def dispatch_campaign(ctx, n):
+    """Util.process: which transforms each topic's chain gets and in which order (OF.Resize.dispatch, C17Dispatch.lean).  Chains mix
+    unscoped transforms with ones scoped by ';topic'; the real process() runs on two image topics (+ one without an image), the
+    lists handed to execute_xforms are recorded and the final frames are compared with applying each topic's chain one transform
+    at a time."""
+    from concurrent.futures import ThreadPoolExecutor
+    res, rng = ctx.result, ctx.rng
+    s = impl_objs(); np, Frame, Util, adict = s['np'], s['Frame'], s['Util'], s['adict']
+    if ctx.replay:
+        cases = [ctx.replay['case']] if ctx.replay.get('case', {}).get('k') == 'dispatch' else []
+    else:
+        cases = [c for c in ctx.corpus if c.get('k') == 'dispatch']
+        for _ in range(n):
+            xf = []
+            for _ in range(rng.choice([2, 3, 3, 4])):
+                x = gen_xform(rng, 64, False)
+                scope = rng.choice([None, None, ['main'], ['other'], ['main', 'other'], ['absent']])
+                xf.append({'s': x['s'] + ''.join(';' + t for t in (scope or [])), 'scope': scope})
+            cases.append({'k': 'dispatch', 'xf': xf, 'w': rng.randint(1, 8), 'h': rng.randint(1, 8), 'w2': rng.randint(1, 8), 'h2': rng.randint(1, 8),
+                          'fmt': rng.choice(['GRAY', 'BGR', 'RGB']), 'seed': rng.randrange(10**6)})
+    reqs = []
+    for c in cases:
+        r = np.random.RandomState(c['seed'])
+        def img(h, w):
+            return r.randint(0, 256, (h, w) if c['fmt'] == 'GRAY' else (h, w, 3)).astype(np.uint8)
+        try:
+            cfg = Util.normalize_config(dict(id='u', sources='tcp://localhost', outputs='tcp://*', xforms=[x['s'] for x in c['xf']]))
+        except Exception as e:
+            res.violations.append(Violation('xform-parse-raises', f'valid scoped xform strings {[x["s"] for x in c["xf"]]} rejected: {errname(e)}', c)); continue
+        u = Util.__new__(Util)
+        u.log = None; u.xforms = cfg.xforms; u.executor = ThreadPoolExecutor(1); u.sleep = None; u.t_per_maxfps = None; u.config = cfg
+        handed = {}
+        real_exec = u.execute_xforms
+        def rec(tx, handed=handed, xs=cfg.xforms, real_exec=real_exec):
+            handed[tx.topic] = [next(i for i, y in enumerate(xs) if y is x) for x in tx.xforms]
+            return real_exec(tx)
+        u.execute_xforms = rec
+        imgs = {'main': img(c['h'], c['w']), 'other': img(c['h2'], c['w2'])}
+        frames = {t: Frame(a.copy(), {'t': t}, c['fmt']) for t, a in imgs.items()}; frames['nodata'] = Frame({'x': 1})
+        try:
+            out = u.process(dict(frames)); err = None
+        except Exception as e:
+            out, err = None, errname(e)
+        u.executor.shutdown(wait=False)
+        scopes = [x['scope'] for x in c['xf']]
+        exp = {t: [i for i, sc in enumerate(scopes) if sc is None or t in sc] for t in ('main', 'other')}
+        res.note(c, any(sc is not None for sc in scopes) and any(sc is None for sc in scopes))
+        viol = []
+        if err is None:
+            for t in ('main', 'other'):
+                got = handed.get(t, [])
+                if got != exp[t]:
+                    viol.append(('xform-dispatch-order', f'topic {t!r}: transforms {[x["s"] for x in c["xf"]]} were applied in the order {got}, the configured order is {exp[t]}'))
+                    continue
+                fr = Frame(imgs[t].copy(), {'t': t}, c['fmt'])
+                try:
+                    for i in exp[t]: fr = real_exec(adict(topic=t, frame=fr, xforms=[cfg.xforms[i]])).frame
+                    if fr.image.shape != out[t].image.shape or not (fr.image == out[t].image).all():
+                        viol.append(('xform-dispatch-result', f'topic {t!r}: the chain gives another image than its transforms applied one at a time in the configured order'))
+                except Exception: pass
+        for key, what in viol[:1]: res.violations.append(Violation(key, what, c))
+        reqs.append((c, handed, err, viol))
+    if ctx.driver and reqs:
+        model = ctx.driver.batch([{'op': 'c17.dispatch', 'scopes': [x['scope'] for x in c['xf']], 'topics': ['main', 'other']} for c, _, _, _ in reqs])
+        for (c, handed, err, viol), m in zip(reqs, model):
+            if err is not None or viol: continue
+            if 'err' in m or m['chains'] != [handed.get('main', []), handed.get('other', [])]:
+                res.disagreements.append({'point': 'c17.dispatch (Util.process per-topic chains)', 'case': c, 'impl': handed, 'model': m})
+            else: res.traces_validated += 1
+    res.extra['dispatch_cases'] = len(cases)
+
+
 def run(ctx):
     logging.disable(logging.CRITICAL)
     res = ctx.result
     impl_objs()
+    dispatch_campaign(ctx, 3000 if ctx.thorough else 300)
+    if ctx.replay and ctx.replay.get('case', {}).get('k') == 'dispatch': return
     st = {'dist': {}, 'branches': {}, 'rho': {'exact-integer-products': 0, 'came-out-one-lower': 0}}
     buf = []
     for c in case_stream(ctx):
